@@ -242,7 +242,8 @@ static void DecodeAdr(int ArgStartIdx, int ArgEndIdx, unsigned OpcodeLen) {
 
     if ((AdrArgCnt >= 1) && (AdrArgCnt <= 2) && (strlen(pEndArg->str.p_str) == 2)
         && (*pEndArg->str.p_str == '-') && (CodeReg(pEndArg->str.p_str + 1, &EReg))) {
-        if ((AdrArgCnt == 2) && !IsZeroOrEmpty(pStartArg)) {
+        /* decrement by one does not exist in indirect form */
+        if (((AdrArgCnt == 2) && !IsZeroOrEmpty(pStartArg)) || IndFlag) {
             WrError(ErrNum_InvAddrMode);
         } else {
             AdrCnt     = 1;
@@ -284,7 +285,8 @@ static void DecodeAdr(int ArgStartIdx, int ArgEndIdx, unsigned OpcodeLen) {
         temp[0] = *pEndArg->str.p_str;
         temp[1] = '\0';
         if (CodeReg(temp, &EReg)) {
-            if ((AdrArgCnt == 2) && !IsZeroOrEmpty(pStartArg)) {
+            /* increment by one does not exist in indirect form */
+            if (((AdrArgCnt == 2) && !IsZeroOrEmpty(pStartArg)) || IndFlag) {
                 WrError(ErrNum_InvAddrMode);
             } else {
                 AdrCnt     = 1;
